@@ -324,6 +324,12 @@ func (c *Client) sendRecv(tm message, rm message) error {
 	err := send(c.log, c.conn, tag(t), tm)
 	c.sendMu.Unlock()
 	if err != nil {
+		// The request did not go out, so no response will remove the
+		// pending entry; it must not outlive this call, because resp is
+		// about to be recycled.
+		c.pendingMu.Lock()
+		delete(c.pending, tag(t))
+		c.pendingMu.Unlock()
 		return fmt.Errorf("send: %w", err)
 	}
 
